@@ -450,9 +450,16 @@ def judgeSend (js : JState) (v2 : Bool) (req : List SeriesD) (o : ImplOut) : Lis
     (pts.filter fun p => !((js.pre.get key).any fun q => q.t == p.t && q.val == p.val)).map fun p => (key, p)
   let lost := js.pre.flatMap fun (key, pts) =>
     (pts.filter fun p => !((o.post.get key).any fun q => q.t == p.t && q.val == p.val)).map fun p => (key, p)
-  let vLost := match lost with
-    | (key, p) :: _ => [s!"violation lost-data proto={proto} key={key} t={p.t}"]
-    | [] => []
+  -- a stored point that an accepted sample of this request hits through the out-of-order window (same
+  -- timestamp, other value) may be shadowed by it on read: same finding as `ooo-ts-collision`
+  let overwritten := fun (p : String × Pt) =>
+    decide (js.oooWin > 0) && (k.acc.any fun a => a.x.key == p.1 && a.x.t == p.2.t) ||
+    decide (js.oooWin > 0) && (k.extras.any fun e => e.1 == p.1 && e.2.t == p.2.t)
+  let vLost := match lost.filter (fun p => !overwritten p), lost with
+    | (key, p) :: _, _ => [s!"violation lost-data proto={proto} key={key} t={p.t}"]
+    | [], (key, p) :: _ =>
+      [s!"violation written-ne-stored kind=ooo-ts-collision proto={proto} what=overwrite key={key} t={p.t}"]
+    | [], [] => []
   let vAtomic :=
     if mustFail then
       (match newPts with
